@@ -195,6 +195,71 @@ fn canary_run(i: usize, seed: u64) -> Canary {
     out
 }
 
+// ---- (5) per-peer independence --------------------------------------------------------------------
+
+/// Labels whose content is legitimately the same for every receiver (verified / unverified broadcasts).
+fn is_broadcast_label(l: &str, k: usize) -> bool {
+    l.starts_with("broadcast ") || matches!(l, "fashare comm" | "fashare ver" | "fashare di_bi" | "flaand comm" | "flaand hash" | "masked inputs") || ((l == "RNG comm" || l == "RNG ver") && k == 1)
+}
+
+/// In a 3- or 4-party run: no high-entropy 16-byte block of what a party sends to one peer may also
+/// occur in what it sends to another peer (pairwise messages carry independent randomness per peer).
+fn independence_run(i: usize, seed: u64) -> (Option<String>, Option<(String, Value)>, usize, String) {
+    let mut rng = ChaCha8Rng::seed_from_u64(seed ^ 0x1d ^ (i as u64).wrapping_mul(0x9e3779b97f4a7c15));
+    let n = 3 + i % 2;
+    let inputs: Vec<usize> = vec![2; n];
+    let mut b = Builder::new(&inputs);
+    let mut acc = b.and(b.input(0, 0), b.input(1, 0));
+    for p in 2..n {
+        acc = b.and(acc, b.input(p, 1));
+    }
+    let c = b.finish(vec![acc]);
+    let inp: Vec<Vec<bool>> = (0..n).map(|_| vec![rng.random(), rng.random()]).collect();
+    let p_eval = i % n;
+    let case = Case::new(c, inp, p_eval, (0..n).collect());
+    let ex = exec_mpc(case);
+    let key = format!("independence|n={n}|E={p_eval}");
+    if ex.end != RunEnd::AllFinished || !ex.outcomes.iter().all(|o| matches!(o, Outcome::Done(Ok(_)))) {
+        return (Some(format!("honest run failed: {:?}", ex.end)), None, 0, key);
+    }
+    let mut blocks = 0;
+    for p in 0..n {
+        // block -> (receiver, label)
+        let mut seen: std::collections::HashMap<[u8; 16], (usize, u16)> = Default::default();
+        for m in ex.net.msgs.iter().filter(|m| m.from == p) {
+            let label = ex.net.label(m.label);
+            if is_broadcast_label(label, m.k) {
+                continue;
+            }
+            // payload after the 8-byte outer length prefix, in aligned 16-byte blocks at every offset mod 16
+            for off in 0..m.sent.len().saturating_sub(15) {
+                let blk: [u8; 16] = m.sent[off..off + 16].try_into().unwrap();
+                let mut distinct = [false; 256];
+                let mut cnt = 0;
+                for x in blk {
+                    if !distinct[x as usize] { distinct[x as usize] = true; cnt += 1; }
+                }
+                if cnt < 10 {
+                    continue; // low entropy (lengths, tags, zero padding)
+                }
+                blocks += 1;
+                match seen.get(&blk) {
+                    Some((to, l)) if *to != m.to => {
+                        let other = ex.net.label(*l).to_string();
+                        return (None, Some((
+                            format!("a party sends the same random-looking 16-byte block to two different peers ('{other}' / '{label}'): its pairwise randomness is not independent per peer"),
+                            json!({"party": p, "peer_a": to, "peer_b": m.to, "label_a": other, "label_b": label, "offset_b": off, "n": n}),
+                        )), blocks, key);
+                    }
+                    Some(_) => {}
+                    None => { seen.insert(blk, (m.to, m.label)); }
+                }
+            }
+        }
+    }
+    (None, None, blocks, key)
+}
+
 // ---- (4) disclosure correlation -----------------------------------------------------------------
 
 struct Corr {
@@ -324,7 +389,7 @@ pub fn run(tier: &str, seed: u64) -> i32 {
     let mut rep = Report::new("C06", tier, seed, "exploration");
     let n_per = if thorough { 2048 } else { 256 };
     let (lo, hi) = (n_per * 48 / 256, n_per * 208 / 256);
-    rep.rule = format!("(1) balance: for the evaluator and a garbler (n=2), {n_per} executions with all own inputs 0 and {n_per} with all 1; per input wire the party's own mask share, recovered from the transcript only as masked_input ^ input ^ XOR of the others' shares, must be 1 in [{lo}, {hi}] of the executions. (2) canary: 128 random input bits must not occur in any message the party sends as packed bit run (either bit order), bool-byte run, decoded-bool run, nor complemented; the same for its own share vector. (3) freshness: all global keys (probe) and all 128-bit own-share vectors over all executions pairwise distinct. (4) disclosure: over 128+ executions with random inputs (3-AND circuit and a 1000-AND circuit whose preprocessing batches are full) no bit-valued field at a fixed position of the party's traffic (decoded bools, opened aShare check bits) agrees or disagrees with its own mask share of an input wire, or with the input bit, in more than 7/8 of the executions. distinct = (role, input value, wire) cells of the balance test plus canary configurations (n, party, evaluator); non-trivial = the cell was filled from decoded transcripts");
+    rep.rule = format!("(1) balance: for the evaluator and a garbler (n=2), {n_per} executions with all own inputs 0 and {n_per} with all 1; per input wire the party's own mask share, recovered from the transcript only as masked_input ^ input ^ XOR of the others' shares, must be 1 in [{lo}, {hi}] of the executions. (2) canary: 128 random input bits must not occur in any message the party sends as packed bit run (either bit order), bool-byte run, decoded-bool run, nor complemented; the same for its own share vector. (3) freshness: all global keys (probe) and all 128-bit own-share vectors over all executions pairwise distinct. (5) per-peer independence: in 3- and 4-party runs no random-looking 16-byte block of a party's pairwise (non-broadcast) traffic to one peer occurs in its traffic to another peer. (4) disclosure: over 128+ executions with random inputs (3-AND circuit and a 1000-AND circuit whose preprocessing batches are full) no bit-valued field at a fixed position of the party's traffic (decoded bools, opened aShare check bits) agrees or disagrees with its own mask share of an input wire, or with the input bit, in more than 7/8 of the executions. distinct = (role, input value, wire) cells of the balance test plus canary configurations (n, party, evaluator); non-trivial = the cell was filled from decoded transcripts");
     rep.assumptions = vec![format!("fixed thresholds: honest false-alarm probability below 1e-20 per wire at N={n_per}; biases smaller than the thresholds and computational distinguishers are not detected")];
     // (1)
     let total = 2 * 2 * n_per;
@@ -400,6 +465,18 @@ pub fn run(tier: &str, seed: u64) -> i32 {
         rep.violation("two executions used the same 128-bit own mask-share vector", json!({"vectors_observed": share_vecs.len()}));
     }
     rep.sample(json!({"kind": "balance", "cells": cells.iter().take(4).collect::<Vec<_>>()}));
+    // (5) per-peer independence
+    let n_ind = if thorough { 64 } else { 12 };
+    let outs = parallel_for(n_ind, threads(), |i| independence_run(i, seed));
+    let mut blocks = 0u64;
+    for (harness, viol, b, key) in outs {
+        rep.evaluations += 1;
+        if let Some(h) = harness { rep.harness_error(h); continue; }
+        blocks += b as u64;
+        rep.distinct.insert(key);
+        if let Some((sig, w)) = viol { rep.violation(sig, w); }
+    }
+    rep.set("independence_blocks_compared", json!(blocks));
     // (4) disclosure correlation, on a small circuit and on one whose preprocessing batches are full
     let n_corr = if thorough { 256 } else { 128 };
     correlation_part(&mut rep, seed, n_corr, 3);
